@@ -120,6 +120,25 @@ def free_layouts(stmt, rng, limit):
                 splits.append(([head(stmt) + pre + "&", "   &" + post], []))
                 # comment and blank lines between the two halves of a continued literal are comment lines, not literal text
                 splits.append(([head(stmt) + pre + "&", "! it's a comment & more", "", "  &" + post], ["! it's a comment & more"]))
+    # 2b. two continuation points inside one literal: the middle line holds the piece between them and nothing else - the
+    #     pieces that are only blanks ('&   &') are always taken, they are content of the literal like any other
+    for ti, t in enumerate(toks):
+        if t[0] in "'\"" and len(t) > 4:
+            for i, j in itertools.combinations(range(2, len(t) - 1), 2):
+                if (t[i - 1] == t[0] and t[i] == t[0]) or (t[j - 1] == t[0] and t[j] == t[0]):
+                    continue
+                pre, mid, post = tokens_text(toks[:ti]) + t[:i], t[i:j], t[j:] + tokens_text(toks[ti + 1:])
+                lay = ([head(stmt) + pre + "&", "   &" + mid + "&", "&" + post], [])
+                if not mid.strip():
+                    yield lay
+                    yield [head(stmt) + pre + "&", "&" + mid + "&", "! inside", "&" + post], ["! inside"]
+                else:
+                    splits.append(lay)
+    # 2c. a blank-only piece between two tokens: the middle line of 'a &' / '&   &' / '& b' adds nothing but separates
+    if len(toks) >= 2:
+        for k in range(1, len(toks)):
+            a, b = tokens_text(toks[:k]), tokens_text(toks[k:])
+            yield [head(stmt) + a + "&", "  &   &", "  &" + b], []
     # 3. three-way splits
     if len(toks) >= 3:
         for i, j in itertools.combinations(range(1, len(toks)), 2):
@@ -196,7 +215,7 @@ def main(argv):
             if len(samples) < 2 and len(lines) > 2:
                 samples.append(dict(source=src, items=items))
     # ---------------------------------------------------------------- ';' joins with trailing comments (C04, C11)
-    for a, b in itertools.permutations(STATEMENTS[:5] + STATEMENTS[-2:], 2):   # (the last two: repeated literals, mixed-case literals)
+    for a, b in itertools.permutations(STATEMENTS[:6] + STATEMENTS[-2:], 2):   # (the last two: repeated literals, mixed-case literals)
         for sep in (";", " ; ", ";  "):
             for tail in ("", " ! trailing"):
                 src = head(a) + tokens_text(a[2]) + sep + head(b, "", (len(sep) + len(tail)) % 4) + tokens_text(b[2]) + tail + "\n" + "z = 0\n"
